@@ -46,7 +46,10 @@ def fmt_lib(chunks, writer, args):
     l = plua.Lua.from_lines(list(chunks), version=8)
     cls = {'fmt': plua.LuaFormatterWriter, 'astecho': plua.LuaASTEchoWriter, 'astmin': plua.LuaMinifyWriter}[writer]
     out = b''.join(l.to_lines(writer_cls=cls, writer_args=args))
-    return l, out
+    # the same object written once more (a tool that measures, then writes): if that differs from the first output it
+    # is the one handed to the oracle
+    out2 = b''.join(l.to_lines(writer_cls=cls, writer_args=dict(args) if args else args))
+    return l, (out if out2 == out else out2)
 
 
 def compare(src, out, case, ranges, what, renaming=False, drop_semis=False, drop_comments=False):
